@@ -32,7 +32,7 @@ from dclab import PolygonFilter, RTDCWriter
 from dclab.rtdc_dataset import feat_temp
 
 ID = "C04"
-RULE = ("Hypothesis-generated operation histories (<=34 ops) on a hierarchy chain of depth "
+RULE = ("Hypothesis-generated operation histories (<=40 ops) on a hierarchy chain of depth "
         "1..4 over a generated root dataset (n<=30, dict or .rtdc file); non-trivial = "
         "depth>=2 and (a manual exclusion of a child that an ancestor edit had hidden is "
         "visible again at a later refresh, or a temporary feature assigned on a non-root "
@@ -61,6 +61,7 @@ ASSUMPTIONS = [
     "version shim: dclab._version pre-seeded with 0.62.7 so that written files re-open"]
 
 MAXDEPTH = 4
+SAMEARR = "parent-events-replaced-same-filter-array"
 GRID = [k / 8 for k in range(-8, 9)]
 DVAL = st.one_of(st.sampled_from(GRID), st.sampled_from(GRID), st.sampled_from(GRID),
                  st.sampled_from([float("nan"), float("inf"), float("-inf")]))
@@ -151,6 +152,24 @@ def st_op(draw, n):
 
 
 @st.composite
+def st_chunk(draw, n):
+    """single operation, or a scripted hide/re-expose cycle around random operations"""
+    if draw(st.integers(0, 9)) < 8:
+        return [draw(st_op(n))]
+    L = draw(st.integers(1, MAXDEPTH))
+    out = [["excl", L, draw(st.lists(st.integers(0, 29), min_size=2, max_size=4))]]
+    if draw(st.booleans()):
+        out.append(["refresh"])
+    out.append(["hide", draw(st.integers(0, 11)), draw(st.integers(0, 3)),
+                draw(st.integers(0, 1))])
+    out.append(["refresh"])
+    out += draw(st.lists(st_op(n), max_size=3))
+    out.append(["unhide", draw(st.integers(0, 7))])
+    out.append(["refresh"])
+    return out
+
+
+@st.composite
 def st_spec(draw):
     n = draw(st.sampled_from([1, 2, 3, 5, 8, 12, 12, 20, 20, 30]))
     return {
@@ -160,8 +179,9 @@ def st_spec(draw):
         "deform": draw(st.lists(DVAL, min_size=n, max_size=n)),
         "depth": draw(st.sampled_from([1, 2, 2, 3, 3, 4])),
         "emod": draw(st.sampled_from([False, False, True])),
-        "ops": draw(st.lists(st_op(n), min_size=draw(st.sampled_from([1, 6, 12, 18])),
-                             max_size=34)),
+        "ops": [op for ch in draw(st.lists(
+            st_chunk(n), min_size=draw(st.sampled_from([1, 5, 10, 15])), max_size=28))
+            for op in ch][:40],
     }
 
 
@@ -260,6 +280,11 @@ class Level:
         self.tempedit = False    # temp feature assigned here, ancestor edited later
         self.uncommitted = False  # manual edits since the level's last refresh
         self.tainted = None      # reason why the manual model is not defined
+        self.taint_reported = False
+        self.Mc = set()          # M as of the level's last refresh ("committed")
+        self.over = None         # (exclusions, re-inclusions) overtaken at this refresh
+        self.tempflag = False
+        self.ftaint = False      # cached box/polygon filters may be stale (see SAMEARR)
 
 
 class Sim:
@@ -274,7 +299,7 @@ class Sim:
         self.mid = False          # an ancestor-only refresh happened in this history
         self.nt = False
         self.anc_last = {}
-        self.pending_edit = [False]
+        self.dead = False
         self.lv[0].view = np.arange(self.n)
         self.lv[0].snap = []
         for _ in range(spec["depth"]):
@@ -297,19 +322,61 @@ class Sim:
 
     def spawn(self):
         # creating a child refreshes the whole chain above it
-        self._before_refresh(self.D)
-        ch = dclab.new_dataset(self.ds[-1])
+        hz = self.pre_refresh(self.D)
+        ch = self.guarded(lambda: dclab.new_dataset(self.ds[-1]), hz)
+        if self.dead:
+            return
         self.ds.append(ch)
-        self.lv.append(Level())
-        self.pending_edit.append(False)
-        self._after_refresh(self.D, created=True)
+        new, par = Level(), self.lv[-1]
+        # a new child copies its parent's configuration except ranges and polygons
+        new.invalid, new.enable, new.limit = par.invalid, par.enable, par.limit
+        self.lv.append(new)
+        self._after_refresh(self.D, hz)
 
     # ---- refresh bookkeeping
-    def _before_refresh(self, R):
-        """classes that describe what this refresh is going to exercise"""
-        pass
+    def pre_refresh(self, R):
+        """What the refresh of level R is going to meet (state before the call).
 
-    def _after_refresh(self, R, created=False):
+        Every level L <= R first reads its manual array (`retrieve_manual_indices`),
+        youngest first, *before* any ancestor is refreshed:
+        * its direct parent's filter.all differs from the one it was synchronised with
+          (ancestor-only refresh / ancestor reset_filter in between): dclab documents that
+          the array is then not read -> manual edits typed since the level's last refresh
+          are dropped ("uncommitted-edit-overtaken");
+        * its direct parent is unchanged but a higher ancestor's filter.all changed and the
+          manual array has a False entry: the child->root mapping runs through an
+          inconsistent chain ("stale-chain-mapping": IndexError or wrong root events).
+        """
+        hz = {"stale": [], "over": {}}
+        for L in range(1, R + 1):
+            lv = self.lv[L]
+            changed = [not np.array_equal(np.asarray(self.ds[K].filter.all), lv.snap[K])
+                       for K in range(L)]
+            if changed[L - 1]:
+                if lv.uncommitted:
+                    hz["over"][L] = (lv.M - lv.Mc, lv.Mc - lv.M)
+            elif any(changed[:L - 1]) and not np.all(self.ds[L].filter.manual):
+                hz["stale"].append(L)
+        return hz
+
+    def guarded(self, call, hz):
+        try:
+            return call()
+        except IndexError as exc:
+            import traceback
+            names = [fr.name for fr in traceback.extract_tb(exc.__traceback__)]
+            if hz["stale"] and "retrieve_manual_indices" in names:
+                self.rec.fail("refresh/raises-IndexError/stale-chain-mapping",
+                              f"refresh raises {exc!r} in retrieve_manual_indices: level(s) "
+                              f"{hz['stale']} hold visible manual exclusions, their direct "
+                              f"parent is unchanged but a higher ancestor was refreshed on "
+                              f"its own (depth {self.D})")
+                self.dead = True
+                self.rec.cls("aborted-after-stale-chain-exception")
+                return None
+            raise
+
+    def _after_refresh(self, R, hz):
         rec = self.rec
         views = [np.arange(self.n)]
         alls = []
@@ -321,42 +388,54 @@ class Sim:
                 rec.fail(f"len/filter-size/{self.hist()}",
                          f"level {K}: filter.all has {len(a)} entries, the level has "
                          f"{len(views[K])} events")
+                self.dead = True
                 return None
             views.append(views[K][a])
         for K in range(R + 1):
             lv = self.lv[K]
             old = lv.view
+            if K >= 1 and old is not None:
+                same_arr = np.array_equal(alls[K - 1], lv.snap[K - 1])
+                if not same_arr:
+                    # dclab re-creates the level's filter: everything is recomputed
+                    lv.ftaint = False
+                elif not np.array_equal(old, views[K]):
+                    # the parent now holds *other events* but its boolean filter array is
+                    # byte-identical: HierarchyFilter.parent_changed does not notice, the
+                    # level keeps its positional manual array and its cached box/polygon
+                    # filters
+                    rec.cls("hazard:parent-events-replaced-same-filter-array")
+                    if lv.M:
+                        lv.tainted = lv.tainted or SAMEARR
+                    if lv.polys or any(a != b for a, b in lv.ranges.values()):
+                        lv.ftaint = True
             lv.view = views[K]
             lv.snap = [a.copy() for a in alls[:K]]
             lv.uncommitted = False
             if K >= 1 and old is not None and lv.M:
-                vis_old = set(old.tolist())
-                vis_new = set(views[K].tolist())
-                if not np.array_equal(old, views[K]) and (lv.M & vis_old):
+                if not np.array_equal(old, views[K]) and (lv.M & set(old.tolist())):
                     rec.cls("parent-changed-with-visible-exclusion")
-        # levels below R may now be out of sync
-        for L in range(R + 1, self.D + 1):
-            lv = self.lv[L]
-            if lv.tainted is None and not self.in_sync(L):
-                if lv.uncommitted:
-                    lv.tainted = "uncommitted-edit-overtaken"
-                elif lv.M:
-                    lv.tainted = "stale-chain"
+            if K in hz["stale"]:
+                rec.cls("hazard:stale-chain-mapping")
+                lv.tainted = "stale-chain-mapping"
+            if K in hz["over"]:
+                rec.cls("hazard:uncommitted-edit-overtaken")
+                lv.over = hz["over"][K]
         return views
 
-    def refresh(self, R, via="rejuvenate"):
+    def refresh(self, R):
         if R < self.D:
             self.mid = True
-        if via == "rejuvenate":
-            if R == 0:
-                self.ds[0].apply_filter()
-            else:
-                self.ds[R].rejuvenate()
-        views = self._after_refresh(R)
+        hz = self.pre_refresh(R)
+        if R == 0:
+            self.ds[0].apply_filter()
+        else:
+            self.guarded(self.ds[R].rejuvenate, hz)
+            if self.dead:
+                return
+        views = self._after_refresh(R, hz)
         if views is not None:
             self.check(R, views)
-        for K in range(R + 1):
-            self.pending_edit[K] = False
 
     # ---- the oracle
     def expected_feature(self, f):
@@ -406,6 +485,29 @@ class Sim:
                 rec.fail(f"manual/size/{h}", f"level {L}: manual has {len(man)} entries "
                                              f"for {m} events")
                 continue
+            if L >= 1 and lv.over is not None:
+                # documented: manual edits typed after the level's last refresh are not
+                # read when the parent's filter changed before the level is refreshed
+                lost, reinc = lv.over
+                lv.over = None
+                vis_lost = sorted(r for r in lost if r in set(v.tolist())
+                                  and man[int(np.flatnonzero(v == r)[0])])
+                if vis_lost:
+                    rec.fail("manual/exclusion-lost/uncommitted-edit-overtaken",
+                             f"level {L} of {self.D}: root events {vis_lost} were excluded on "
+                             f"this level while it was synchronised; an ancestor's filter "
+                             f"changed (ancestor-only refresh or reset_filter) before the "
+                             f"level was refreshed and the exclusions are gone: "
+                             f"view={v.tolist()} manual={man.astype(int).tolist()}")
+                if lost:
+                    rec.skip("uncommitted-exclusion-overtaken", len(lost))
+                if reinc:
+                    rec.skip("uncommitted-reinclusion-overtaken", len(reinc))
+                # continue with what dclab documents: the committed state
+                for r in lost:
+                    if r not in set(v.tolist()) or r in vis_lost:
+                        lv.M.discard(r)
+                lv.M |= reinc
             expman = np.array([int(r) not in lv.M for r in v], dtype=bool)
             if L >= 1:
                 vis = set(v.tolist())
@@ -419,44 +521,48 @@ class Sim:
                     rec.cls("excl-reexposed")
                     if self.D >= 2:
                         self.nt = True
-                    if len(lv.M & vis) > len(back) or True:
-                        pass
+                    if (lv.M & vis) - back:
+                        rec.cls("excl-reexposed-while-other-visible")
                 if lv.tainted:
+                    bad = np.flatnonzero(man != expman)
+                    if len(bad) and not lv.taint_reported:
+                        lv.taint_reported = True
+                        why = ("the parent's events were replaced while its boolean filter "
+                               "array stayed byte-identical (filter not re-created)"
+                               if lv.tainted == SAMEARR else
+                               "this level's visible exclusions were mapped through a chain "
+                               "whose upper part had been refreshed on its own")
+                        rec.fail(f"manual/wrong-events/{lv.tainted}",
+                                 f"level {L} of {self.D}: {why}; manual is "
+                                 f"{man.astype(int).tolist()} for view {v.tolist()}, user "
+                                 f"exclusions (root indices) {sorted(lv.M)}")
                     rec.skip(f"manual-model-undefined:{lv.tainted}")
                 else:
                     bad = np.flatnonzero(man != expman)
-                    if len(bad):
-                        roots = v[bad]
-                        lost = [int(r) for r in roots if int(r) in lv.M]
-                        spurious = [int(r) for r in roots if int(r) not in lv.M]
-                        if lost:
-                            cl = ("reexposed" if set(lost) & lv.hidden_seen
-                                  else "visible")
-                            rec.fail(f"manual/exclusion-lost/{cl}/{h}",
-                                     f"level {L} of {self.D}: root events {lost} were "
-                                     f"excluded by the user on this level but "
-                                     f"filter.manual is True; M={sorted(lv.M)} "
-                                     f"view={v.tolist()} manual={man.astype(int).tolist()}")
-                        if spurious:
-                            rec.fail(f"manual/spurious-exclusion/{h}",
-                                     f"level {L} of {self.D}: root events {spurious} are "
-                                     f"excluded in filter.manual but the user never "
-                                     f"excluded them (since the last reset); "
-                                     f"M={sorted(lv.M)} view={v.tolist()} "
-                                     f"manual={man.astype(int).tolist()}")
-                    else:
-                        rec.check(True, "manual/ok")
-                    if back and (lv.M & vis) - back:
-                        rec.cls("excl-reexposed-while-other-visible")
-                lv.hidden_seen = (lv.hidden_seen | hidden) & lv.M
-                # re-exposed ones are no longer "hidden seen"
-                lv.hidden_seen -= vis
+                    roots = v[bad]
+                    lost = [int(r) for r in roots if int(r) in lv.M]
+                    spurious = [int(r) for r in roots if int(r) not in lv.M]
+                    cl = "reexposed" if set(lost) & lv.hidden_seen else "visible"
+                    rec.check(not lost, f"manual/exclusion-lost/{cl}/{h}",
+                              lambda: f"level {L} of {self.D}: root events {lost} were "
+                                      f"excluded by the user on this level but "
+                                      f"filter.manual is True; M={sorted(lv.M)} "
+                                      f"view={v.tolist()} manual={man.astype(int).tolist()}")
+                    rec.check(not spurious, f"manual/spurious-exclusion/{h}",
+                              lambda: f"level {L} of {self.D}: root events {spurious} are "
+                                      f"excluded in filter.manual but the user never "
+                                      f"excluded them (since the last reset); "
+                                      f"M={sorted(lv.M)} view={v.tolist()} "
+                                      f"manual={man.astype(int).tolist()}")
+                lv.hidden_seen = ((lv.hidden_seen | hidden) & lv.M) - vis
+                lv.Mc = set(lv.M)
             else:
                 rec.check(np.array_equal(man, expman), f"manual/root/{h}",
                           lambda: f"root manual {man.astype(int).tolist()} "
                                   f"expected {expman.astype(int).tolist()}")
             # ---- the level's own filter equals the specification
-            self.check_level_filter(L, ds, lv, v, exp, scal, man, kind, h)
+            self.check_level_filter(L, ds, lv, v, exp, scal, man, kind,
+                                    SAMEARR if lv.ftaint else h)
             if lv.tempedit and self.D >= 2:
                 self.nt = True
                 rec.cls("temp-nonroot-then-edit")
@@ -584,7 +690,8 @@ class Sim:
             try:
                 obj = ds[f]
             except IndexError as exc:
-                empty_anc = any(len(self.lv[K].view) == 0 for K in range(1, L))
+                # child.hparent[f].shape reads event 0 of level L-2
+                empty_anc = L >= 3 and len(self.lv[L - 2].view) == 0
                 if e.ndim > 1 and f not in ("image", "mask") and empty_anc:
                     rec.fail(f"feature/{fk_of(self, f)}/getitem-raises/empty-ancestor-level",
                              f"level {L}: child['{f}'] raises {exc!r} because an "
@@ -663,7 +770,6 @@ class Sim:
     # ---- operations
     def mark_edit(self, L):
         """a filter-relevant edit on level L: descendants will change at the next refresh"""
-        self.pending_edit[L] = True
         for K in range(L + 1, self.D + 1):
             if self.lv[K].tempflag:
                 self.lv[K].tempedit = True
@@ -677,8 +783,8 @@ class Sim:
                 return
             rec.cls("op:spawn")
             self.spawn()
-            views = [self.lv[K].view for K in range(self.D + 1)]
-            self.check(self.D, views)
+            if not self.dead:
+                self.check(self.D, [self.lv[K].view for K in range(self.D + 1)])
             return
         if k == "refresh":
             rec.cls("op:refresh")
@@ -818,8 +924,9 @@ class Sim:
             lv.M = set()
             lv.hidden_seen = set()
             lv.uncommitted = False
-            if lv.tainted:
-                lv.tainted = None
+            lv.Mc = set()
+            lv.tainted, lv.taint_reported = None, False
+            lv.ftaint = False
             self.mark_edit(L)
         elif k == "temp":
             if L >= 1 and not self.in_sync(L):
@@ -835,12 +942,13 @@ class Sim:
             # the call refreshes level L (and its ancestors) itself
             if L < self.D and L >= 1:
                 self.mid = True
-            feat_temp.set_temporary_feature(ds, name, vals)
+            hz = self.pre_refresh(L)
+            self.guarded(lambda: feat_temp.set_temporary_feature(ds, name, vals), hz)
+            if self.dead:
+                return
             self.temp[name] = full
             if L >= 1:
-                for K in range(L + 1):
-                    self.pending_edit[K] = False
-                views = self._after_refresh(L)
+                views = self._after_refresh(L, hz)
                 lv.tempflag = True
                 if views is not None:
                     self.check(L, views)
@@ -872,9 +980,6 @@ class Sim:
             raise ValueError(k)
 
 
-Level.tempflag = False
-
-
 def fk_of(sim, f):
     return sim.fkind(f)
 
@@ -897,8 +1002,11 @@ def run_case(spec, rec):
                     sim.root.config[sec][key] = vals[0]
             sim.refresh(sim.D)
             for op in spec["ops"]:
+                if sim.dead:
+                    break
                 sim.op(op)
-            sim.refresh(sim.D)
+            if not sim.dead:
+                sim.refresh(sim.D)
             rec.cls(f"depth:{sim.D}")
             if sim.nt:
                 rec.nontrivial()
